@@ -349,3 +349,56 @@ def under_O(suite, n=10):
     inst = Optimised.__new__(Optimised)
     inst.__dict__.update(suite.__dict__)
     return inst
+
+
+_DEBUG_SINK = []
+
+
+def _debug_on():
+    """worker side: every logger of the library at DEBUG, records formatted into a bounded in-memory sink (what an
+    application that passes -v, or DISSECT_LOG_<MODULE>=DEBUG in the environment, gets)"""
+    import importlib
+    import logging
+    import pkgutil
+
+    import dissect.hypervisor as pkg
+    if not _DEBUG_SINK:
+        for m in pkgutil.walk_packages(pkg.__path__, pkg.__name__ + "."):
+            try:
+                importlib.import_module(m.name)
+            except Exception:  # noqa: BLE001
+                pass
+
+        class Sink(logging.Handler):
+            def emit(self, record):
+                _DEBUG_SINK.append(len(self.format(record)))
+                del _DEBUG_SINK[:-8]
+        root = logging.getLogger("dissect")
+        root.addHandler(Sink())
+        root.propagate = False
+        _DEBUG_SINK.append(0)
+    for name, lg in list(logging.Logger.manager.loggerDict.items()):
+        if name.startswith("dissect") and isinstance(lg, logging.Logger):
+            lg.setLevel(logging.DEBUG)
+
+
+def under_debug(suite, n=8):
+    """the same suite with diagnostic logging switched on (environment DISSECT_LOG_<MODULE>=DEBUG for every module, and
+    every logger of the library set to DEBUG with a formatting handler), on the first n generated cases: what a reader
+    returns must not depend on whether its diagnostics are evaluated"""
+    base = type(suite)
+    mods = ["VHDX", "VMDK", "VHD", "VDI", "QCOW2", "HDD", "HDS", "HYPERV", "VMX", "OVF", "VBOX", "PVS", "ENVELOPE", "VMTAR"]
+
+    class Debugged(base):
+        name = suite.name + "_dbg"
+        env = dict(getattr(suite, "env", None) or {}, **{"DISSECT_LOG_" + m: "DEBUG" for m in mods})
+
+        def generate(self, rng, tier):
+            return base.generate(self, rng, tier)[: (3 * n if tier == "thorough" else n)]
+
+        def impl(self, case):
+            _debug_on()
+            return base.impl(self, case)
+    inst = Debugged.__new__(Debugged)
+    inst.__dict__.update(suite.__dict__)
+    return inst
